@@ -312,8 +312,9 @@ func (s StructDecl) homeRef() string {
 	return s.Name
 }
 
-var paramNames = []string{"in", "from", "s", "p"}
-var resultNames = []string{"out", "to", "d", "res"}
+// "i" and "e" are the names the generated slice loops use for index and element: a declared operand name must survive them
+var paramNames = []string{"in", "from", "s", "p", "e", "i"}
+var resultNames = []string{"out", "to", "d", "res", "e", "i"}
 var extraTypes = []string{"int", "string", "LInt", "*LInner", "ext.MyInt", "[]int", "bool", "[]LInt", "map[string]ext.MyInt", "[]*ext.Inner", "func(LInt) ext.MyInt"}
 
 // GenShape draws the shape dimensions of a method (only legal combinations; C08 enumerates the
@@ -348,6 +349,9 @@ func GenShape(t *rapid.T, m *Method, srcLocal bool) {
 	}
 	if rapid.IntRange(0, 5).Draw(t, "namedRes") == 0 {
 		m.DstName = rapid.SampledFrom(resultNames).Draw(t, "dstName")
+		if m.DstName == m.SrcName || m.DstName == m.Recv {
+			m.DstName = "out"
+		}
 	}
 }
 
